@@ -46,7 +46,7 @@ type Auth struct {
 	CookieName string
 	CSRFName   string
 	Slug       string
-	Inner      providers.Provider // the concrete provider (GoogleProvider / OktaProvider)
+	Inner      providers.Provider    // the concrete provider (GoogleProvider / OktaProvider)
 	GroupCache *providers.GroupCache // the answer cache in front of it (okta), nil otherwise
 }
 
